@@ -1,6 +1,10 @@
 package servicemod
 
 import (
+	"fmt"
+
+	svctypes "mods.irisnet.org/modules/service/types"
+
 	"verif/sim/engine"
 )
 
@@ -197,4 +201,39 @@ func (m *Module) SetContextLabel(contextID, label string) {
 	if c := m.ctxs[contextID]; c != nil && c.Label == "" {
 		c.Label = label
 	}
+}
+
+// DurableQueries renders the queries about the objects that an export / import round trip
+// must preserve in either export variant (C12): parameters, definitions, bindings, withdraw
+// addresses. (Request contexts, requests and tallies are deliberately left out: the module's
+// zero-height preparation pauses, refunds and drops them by design.)
+func (m *Module) DurableQueries(w *engine.World, n *engine.Node) []engine.KV {
+	ctx := n.Ctx()
+	k := n.K.Service
+	var out []engine.KV
+	render := func(key string, v fmt.Stringer, err error) {
+		s := ""
+		if err != nil {
+			s = "error: " + err.Error()
+		} else {
+			s = v.String()
+		}
+		out = append(out, engine.KV{K: key, V: s})
+	}
+	p, err := k.Params(ctx, &svctypes.QueryParamsRequest{})
+	render("params", p, err)
+	for _, d := range engine.SortedKeys(m.defs) {
+		r, err := k.Definition(ctx, &svctypes.QueryDefinitionRequest{ServiceName: d})
+		render("definition:"+d, r, err)
+	}
+	for _, bk := range m.bindOrd {
+		b := m.bindings[bk]
+		r, err := k.Binding(ctx, &svctypes.QueryBindingRequest{ServiceName: b.Service, Provider: b.Provider})
+		render("binding:"+bk, r, err)
+	}
+	for _, o := range engine.SortedKeys(m.withdraw) {
+		r, err := k.WithdrawAddress(ctx, &svctypes.QueryWithdrawAddressRequest{Owner: o})
+		render("withdraw-address:"+o, r, err)
+	}
+	return out
 }
